@@ -34,15 +34,16 @@ def replay_cases(out, cases, seed):
 LEGEND = {"Module": 0, "Function": 1, "Constructor": 2}
 
 
-def lsp_projection(text, hl):
-    """(line, utf16 col, utf16 len, type) of each highlight, as a client would number them"""
+def lsp_projection(text, hl, enc="utf-16"):
+    """(line, col, len, type) of each highlight, as a client would number them in the encoding the session agreed on"""
+    width = {"utf-16": lambda t: len(t.encode("utf-16-le")) // 2, "utf-8": lambda t: len(t.encode()), "utf-32": len}[enc]
     res = []
     b = text.encode()
     for s, e, tag in hl:
         before = b[:s].decode()
         line = before.count("\n")
-        col = len(before.rsplit("\n", 1)[-1].encode("utf-16-le")) // 2
-        ln = len(b[s:e].decode().encode("utf-16-le")) // 2
+        col = width(before.rsplit("\n", 1)[-1])
+        ln = width(b[s:e].decode())
         res.append((line, col, ln, LEGEND[tag]))
     return res
 
@@ -57,21 +58,55 @@ def decode(data):
     return res
 
 
+def edge_docs(seed):
+    """documents whose highlighted identifiers sit where the conversion has the least slack: at the very end of a line (and of
+    the file) that holds multi-byte text of every width, directly after such text, and on a line of their own; highlight
+    lists from the analysis itself (hldump)"""
+    import random
+    rnd = random.Random(seed)
+    chars = ["ß", "é", "中", "ℝ", "💣", "𝒳", "\u00a0", "a"]
+    docs = []
+    for k in range(12):
+        lines = ["fn f(x) { x }", "pub fn main() {"]
+        for _ in range(rnd.randint(2, 5)):
+            st = "".join(rnd.choice(chars) for _ in range(rnd.randint(1, 6)))
+            lines.append(rnd.choice(['  "%s" |> f', '  f("%s") |> f', '  "%s"|>f', '  // %s\n  f(f)', '  #(f, "%s", f) |> f']) % st)
+        lines.append('  "%s" |> f }' % "".join(rnd.choice(chars) for _ in range(3)) if k % 2 else "  f(1)\n}")
+        # the last highlighted identifier may be the very end of the file
+        docs.append("\n".join(lines) + ("\n" if k % 3 else "") if k % 2 == 0 else "\n".join(lines[:-1]) + "\n  1 }\nfn g() { f }\nconst k = f")
+    p = vlib.run_bin("hldump", stdin_data="".join(json.dumps({"text": t}) + "\n" for t in docs))
+    if p.returncode != 0:
+        raise vlib.ToolError("hldump crashed: " + p.stderr.decode()[-1500:])
+    recs = [json.loads(l) for l in p.stdout.decode().split("\n") if l.strip()]
+    if len(recs) != len(docs) or not all(r["hl"] for r in recs):
+        raise vlib.ToolError("hldump: missing highlight lists")
+    return recs
+
+
 def end_to_end(out, hl_path, seed):
     """real programs (GleamGen, seeded layouts with non-ASCII comments) through the real server: the decoded
     semanticTokens/full array must be the LSP projection of the analysis' highlight list; /range a sub-list"""
-    recs = [json.loads(l) for l in open(hl_path)]
+    recs = [json.loads(l) for l in open(hl_path)] + edge_docs(seed)
     root = vlib.workdir("c19-e2e")
     open(os.path.join(root, "gleam.toml"), "w").write('name = "p"\nversion = "0.1.0"\n')
     os.makedirs(os.path.join(root, "src"))
     lib = scope_common_lib()
     open(os.path.join(root, "src", "m2.gleam"), "w").write(lib)
-    sess = lsp.Session(root, stderr_path=os.path.join(root, "stderr.log"))
     n = 0
-    try:
-        if sess.initialize() is None:
+    # one session per announcement of general.positionEncodings a client may make; tokens are numbered in the encoding the
+    # session agreed on (the server's capabilities.positionEncoding, utf-16 if it announces none)
+    offers = [None, ["utf-8", "utf-16"], ["utf-32", "utf-16"]]
+    for oi, offer in enumerate(offers):
+      sess = lsp.Session(root, stderr_path=os.path.join(root, "stderr.log"))
+      try:
+        if sess.initialize(encodings=offer) is None:
             raise vlib.ToolError("server did not answer initialize")
+        if sess.enc not in (offer or ["utf-16"]):
+            out.report({"what": "server announced a position encoding the client did not offer", "level": "server"}, {"offered": offer, "announced": sess.enc})
+            continue
         for k, r in enumerate(recs):
+            if k % len(offers) != oi:
+                continue
             path = os.path.join(root, "src", f"g{k}.gleam")
             open(path, "w").write(r["text"])
             sess.did_open(path, r["text"])
@@ -80,7 +115,7 @@ def end_to_end(out, hl_path, seed):
                 out.report({"what": "semanticTokens/full failed", "level": "server"}, {"text": r["text"], "response": resp})
                 continue
             got = decode((resp["result"] or {}).get("data", []))
-            exp = lsp_projection(r["text"], r["hl"])
+            exp = lsp_projection(r["text"], r["hl"], sess.enc)
             n += 1
             if got != exp:
                 out.report({"what": "decoded tokens differ from the highlight list", "level": "server"},
@@ -96,7 +131,7 @@ def end_to_end(out, hl_path, seed):
                 sub = decode((rr["result"] or {}).get("data", []))
                 if [t for t in sub if t not in exp]:
                     out.report({"what": "range tokens not among the full tokens", "level": "server"}, {"text": r["text"], "got": sub, "full": exp})
-    finally:
+      finally:
         sess.close()
     shutil.rmtree(root, ignore_errors=True)
     return n
